@@ -29,6 +29,7 @@ func EvalBoolFunc(fn *ssa.Function, arg constant.Value) (result bool, ok bool) {
 		x, ok := vals[v]
 		return x, ok
 	}
+	lookups := map[*ssa.Lookup]bool{}
 	b := fn.Blocks[0]
 	var prev *ssa.BasicBlock
 	for steps := 0; steps < 500; steps++ {
@@ -58,6 +59,9 @@ func EvalBoolFunc(fn *ssa.Function, arg constant.Value) (result bool, ok bool) {
 					return false, false
 				}
 			case *ssa.UnOp:
+				if _, isGlobal := x.X.(*ssa.Global); isGlobal && x.Op == token.MUL {
+					continue // load of a package-level variable: judged where it is used (a set lookup)
+				}
 				if x.Op != token.NOT {
 					return false, false
 				}
@@ -75,6 +79,31 @@ func EvalBoolFunc(fn *ssa.Function, arg constant.Value) (result bool, ok bool) {
 					return false, false
 				}
 				vals[x] = v
+			case *ssa.Lookup:
+				// membership in a package-level set that is filled with constant keys in the package initialiser
+				// and written nowhere else
+				k, okk := get(x.Index)
+				keys, oks := constantKeySet(x.X)
+				if !okk || !oks || !x.CommaOk {
+					return false, false
+				}
+				member := false
+				for _, kk := range keys {
+					if constant.Compare(k, token.EQL, kk) {
+						member = true
+					}
+				}
+				lookups[x] = member
+			case *ssa.Extract:
+				lk, isLk := x.Tuple.(*ssa.Lookup)
+				m, known := lookups[lk]
+				if !isLk || !known || x.Index != 1 {
+					if x.Index == 0 && isLk && known {
+						continue // the value of the set entry: not needed unless used (then undecided at the use)
+					}
+					return false, false
+				}
+				vals[x] = constant.MakeBool(m)
 			case *ssa.Convert:
 				v, ok := get(x.X)
 				if !ok {
@@ -120,4 +149,62 @@ func EvalBoolFunc(fn *ssa.Function, arg constant.Value) (result bool, ok bool) {
 	next:
 	}
 	return false, false
+}
+
+// constantKeySet: m is a load of a package-level map variable that is assigned once, in the package initialiser, a
+// map built there with constant keys, and the variable is stored to nowhere else in the package. Returns the keys.
+func constantKeySet(m ssa.Value) ([]constant.Value, bool) {
+	ld, ok := m.(*ssa.UnOp)
+	if !ok || ld.Op != token.MUL {
+		return nil, false
+	}
+	g, ok := ld.X.(*ssa.Global)
+	if !ok || g.Pkg == nil {
+		return nil, false
+	}
+	initFn := g.Pkg.Func("init")
+	if initFn == nil {
+		return nil, false
+	}
+	var made ssa.Value
+	nStores := 0
+	for _, mem := range g.Pkg.Members {
+		fn, isFn := mem.(*ssa.Function)
+		if !isFn {
+			continue
+		}
+		for _, f := range WithClosures(fn) {
+			EachInstr(f, func(in ssa.Instruction) {
+				switch x := in.(type) {
+				case *ssa.Store:
+					if x.Addr == ssa.Value(g) {
+						nStores++
+						made = x.Val
+					}
+				case *ssa.MapUpdate:
+					if u, ok := x.Map.(*ssa.UnOp); ok && u.X == ssa.Value(g) {
+						nStores += 2 // written after initialisation
+					}
+				}
+			})
+		}
+	}
+	if nStores != 1 || made == nil {
+		return nil, false
+	}
+	var keys []constant.Value
+	okAll := true
+	EachInstr(initFn, func(in ssa.Instruction) {
+		mu, ok := in.(*ssa.MapUpdate)
+		if !ok || mu.Map != made {
+			return
+		}
+		c, ok := mu.Key.(*ssa.Const)
+		if !ok || c.Value == nil {
+			okAll = false
+			return
+		}
+		keys = append(keys, c.Value)
+	})
+	return keys, okAll
 }
